@@ -40,6 +40,8 @@ func TestVerif(t *testing.T) {
 	switch p.Part {
 	case "C10.wire":
 		verifWire(p, r)
+	case "C10.fuzz":
+		verifWireFuzz(p, r)
 	default:
 		t.Fatalf("unknown part %s", p.Part)
 	}
@@ -77,7 +79,16 @@ func newSubject(n int, scheme string, cache uint, agg bool, state string, rng *v
 	}
 	w := vk.NewWorld(n, scheme, cache, opts...)
 	// leaders: replica 2 leads odd views, the subject even ones
-	node, err := vk.NewNode(w.M(1), vk.NodeOpts{Ruleset: ruleset, Leader: vk.ScriptLeader{Sched: []hotstuff.ID{2, 1}}})
+	sched := []hotstuff.ID{2, 1}
+	switch state {
+	case "deep":
+		sched = []hotstuff.ID{2, 2, 2, 2, 2, 2, 1} // replica 2 leads the first six views: the subject votes, locks and commits
+	case "mid":
+		sched = []hotstuff.ID{2, 2, 2, 1}
+	case "timedout":
+		sched = []hotstuff.ID{2, 2, 1}
+	}
+	node, err := vk.NewNode(w.M(1), vk.NodeOpts{Ruleset: ruleset, Leader: vk.ScriptLeader{Sched: sched}})
 	if err != nil {
 		panic(err)
 	}
@@ -100,12 +111,9 @@ func newSubject(n int, scheme string, cache uint, agg bool, state string, rng *v
 	// drive the subject into the requested state with genuine traffic from the other replicas
 	gen := hotstuff.GetGenesis()
 	parent, qc := gen, hotstuff.NewQuorumCert(nil, 0, gen.Hash())
-	views := map[string]int{"fresh": 0, "mid": 3, "timedout": 2}[state]
+	views := map[string]int{"fresh": 0, "mid": 3, "timedout": 2, "deep": 5}[state]
 	for v := 1; v <= views; v++ {
-		leader := hotstuff.ID(2)
-		if v%2 == 0 {
-			leader = 1
-		}
+		leader := sched[(v-1)%len(sched)]
 		if leader == 1 {
 			// the subject proposes itself when it enters the view (driven by the QC below)
 			break
@@ -205,6 +213,213 @@ func (s *subject) call(kind string, from hotstuff.ID, msg proto.Message) (pan an
 	}
 	_, pan, site = s.node.Drain(10000)
 	return
+}
+
+// callRaw is call for raw wire bytes: bytes that do not decode are dropped by the transport (decoded=false).
+func (s *subject) callRaw(kind string, from hotstuff.ID, raw []byte) (decoded bool, pan any, site string) {
+	s.topUp()
+	defer func() {
+		if e := recover(); e != nil {
+			pan, site = e, vk.StackSite()
+		}
+	}()
+	ctx := peerCtx(from)
+	switch kind {
+	case "propose":
+		m := &hotstuffpb.Proposal{}
+		if proto.Unmarshal(raw, m) != nil {
+			return false, nil, ""
+		}
+		s.impl.Propose(ctx, m)
+	case "vote":
+		m := &hotstuffpb.PartialCert{}
+		if proto.Unmarshal(raw, m) != nil {
+			return false, nil, ""
+		}
+		s.impl.Vote(ctx, m)
+	case "newview":
+		m := &hotstuffpb.SyncInfo{}
+		if proto.Unmarshal(raw, m) != nil {
+			return false, nil, ""
+		}
+		s.impl.NewView(ctx, m)
+	case "timeout":
+		m := &hotstuffpb.TimeoutMsg{}
+		if proto.Unmarshal(raw, m) != nil {
+			return false, nil, ""
+		}
+		s.impl.Timeout(ctx, m)
+	case "fetch":
+		m := &hotstuffpb.BlockHash{}
+		if proto.Unmarshal(raw, m) != nil {
+			return false, nil, ""
+		}
+		_, _ = s.impl.RequestBlock(ctx, m)
+	case "contribution":
+		m := &kauripb.Contribution{}
+		if proto.Unmarshal(raw, m) != nil {
+			return false, nil, ""
+		}
+		s.km.EL.AddEvent(m)
+		pan, site = s.drainK()
+		return true, pan, site
+	}
+	_, pan, site = s.node.Drain(10000)
+	return true, pan, site
+}
+
+func decodes(kind string, raw []byte) bool {
+	var m proto.Message
+	switch kind {
+	case "propose":
+		m = &hotstuffpb.Proposal{}
+	case "vote":
+		m = &hotstuffpb.PartialCert{}
+	case "newview":
+		m = &hotstuffpb.SyncInfo{}
+	case "timeout":
+		m = &hotstuffpb.TimeoutMsg{}
+	case "fetch":
+		m = &hotstuffpb.BlockHash{}
+	default:
+		m = &kauripb.Contribution{}
+	}
+	return proto.Unmarshal(raw, m) == nil
+}
+
+// mutateBytes applies 1..4 byte-level mutations: bit flips, byte overwrite, truncation, deletion, duplication of a
+// slice, splice with another message, varint blow-up.
+func mutateBytes(rng *vbase.Rng, raw []byte, other []byte) []byte {
+	b := append([]byte(nil), raw...)
+	for k := []int{1, 1, 1, 2, 2, 3, 4}[rng.Intn(7)]; k > 0; k-- {
+		if len(b) == 0 {
+			b = append(b, rng.Bytes(rng.Range(1, 8))...)
+			continue
+		}
+		switch rng.Intn(8) {
+		case 0:
+			i := rng.Intn(len(b))
+			b[i] ^= 1 << uint(rng.Intn(8))
+		case 1:
+			b[rng.Intn(len(b))] = byte(rng.Intn(256))
+		case 2:
+			b = b[:rng.Intn(len(b))]
+		case 3:
+			i := rng.Intn(len(b))
+			j := i + rng.Intn(len(b)-i)
+			b = append(b[:i:i], b[j:]...)
+		case 4:
+			i := rng.Intn(len(b))
+			j := i + rng.Intn(min(len(b)-i, 40))
+			b = append(b[:j:j], append(append([]byte(nil), b[i:j]...), b[j:]...)...)
+		case 5:
+			if len(other) > 0 {
+				i, j := rng.Intn(len(b)), rng.Intn(len(other))
+				b = append(b[:i:i], other[j:]...)
+			}
+		case 6:
+			i := rng.Intn(len(b))
+			b = append(b[:i:i], append([]byte{0xff, 0xff, 0xff, 0xff, 0xff, 0xff, 0xff, 0xff, 0xff, 0x01}, b[i:]...)...)
+		case 7:
+			i := rng.Intn(len(b))
+			b = append(b[:i:i], append(rng.Bytes(rng.Range(1, 6)), b[i:]...)...)
+		}
+	}
+	return b
+}
+
+// verifWireFuzz: byte-level mutations of the marshalled enumeration corpus (valid and invalid messages).
+func verifWireFuzz(p vbase.Params, r *vbase.Result) {
+	r.Rule = "byte-level mutation of the marshalled C10.wire corpus (1..4 of: bit flip, byte overwrite, truncation, deletion, slice duplication, splice with another message, oversized varint, random insertion), " +
+		"delivered to the REAL serviceImpl handlers of replicas in states fresh / mid / timed out / deep x schemes x cache on/off x both timeout rules, several messages in a row on the same replica; bytes that do not decode are " +
+		"dropped as the transport would; oracles after every delivery: no panic, handler returns (30 s watchdog), view / high QC view / high TC view / committed view never decrease, the held high QC and high TC are genuine " +
+		"certificates (sign-log oracle); non-trivial: the mutated bytes decode; distinct: the mutated bytes"
+	per := 1500 // per configuration (configurations are sharded)
+	if p.Thorough() {
+		per = 40000
+	}
+	idx := 0
+	for _, scheme := range vk.Schemes {
+		for _, cache := range []uint{0, 100} {
+			for _, agg := range []bool{false, true} {
+				for _, state := range []string{"fresh", "mid", "timedout", "deep"} {
+					idx++
+					if !p.Mine(idx) {
+						continue
+					}
+					rng := vbase.NewRng(p.Seed, "C10.fuzz", scheme, cache, agg, state)
+					probe := newSubject(4, scheme, cache, agg, state, rng)
+					cases := probe.enumerate()
+					raws := make([][]byte, len(cases))
+					for i, c := range cases {
+						raws[i] = mustMarshal(c.msg)
+					}
+					nper := per
+					if scheme == crypto.NameBLS12 {
+						nper = per / 3
+					}
+					var subj *subject
+					sinceNew := 0
+					for k := 0; k < nper; k++ {
+						if subj == nil || sinceNew >= 25 {
+							subj = newSubject(4, scheme, cache, agg, state, rng)
+							for _, b := range probe.blocks {
+								subj.w.StoreAll(b)
+								subj.node.Chain.Store(b)
+							}
+							sinceNew = 0
+						}
+						sinceNew++
+						ci := rng.Intn(len(cases))
+						c := cases[ci]
+						raw := mutateBytes(rng, raws[ci], raws[rng.Intn(len(raws))])
+						for try := 0; try < 10 && !decodes(c.kind, raw); try++ {
+							raw = mutateBytes(rng, raws[ci], raws[rng.Intn(len(raws))])
+						}
+						from := hotstuff.ID(rng.Range(2, 4))
+						bv, bq, bt, bc := subj.node.VS.View(), subj.node.VS.HighQC().View(), subj.node.VS.HighTC().View(), subj.node.VS.CommittedBlock().View()
+						tag := fmt.Sprintf("fuzz/%s/%s/cache=%d/agg=%v/%s", state, scheme, cache, agg, c.name)
+						stop := watch(p, r, tag, c.kind)
+						decoded, pan, site := subj.callRaw(c.kind, from, raw)
+						stop()
+						r.Eval(decoded, fmt.Sprintf("%s/%x", c.kind, raw))
+						rep := map[string]any{"state": state, "scheme": scheme, "cache": cache, "aggregate": agg, "kind": c.kind, "mutated_from": c.name, "wire": fmt.Sprintf("%x", raw)}
+						if !decoded {
+							r.Obs("undecodable_dropped", 1)
+							continue
+						}
+						r.Obs("fuzzed_"+c.kind, 1)
+						if pan != nil {
+							r.Violate(vbase.Sig("panic", "msg", c.kind, "site", site), fmt.Sprintf("mutated %s message (from %q) makes the replica panic in %s: %v (state %s, %s, cache %d, aggregate=%v)", c.kind, c.name, site, pan, state, scheme, cache, agg), rep)
+							subj = nil
+							continue
+						}
+						av, aq, at, ac := subj.node.VS.View(), subj.node.VS.HighQC().View(), subj.node.VS.HighTC().View(), subj.node.VS.CommittedBlock().View()
+						if av < bv || aq < bq || at < bt || ac < bc {
+							r.Violate(vbase.Sig("state-regressed", "msg", c.kind), fmt.Sprintf("mutated %s message (from %q) moved the replica backwards: view %d->%d highQC %d->%d highTC %d->%d committed %d->%d (state %s, %s)", c.kind, c.name, bv, av, bq, aq, bt, at, bc, ac, state, scheme), rep)
+							subj = nil
+							continue
+						}
+						if v, signers := subj.w.TrueQC(subj.node.VS.HighQC()); v == vk.MustReject && first(probe.w.TrueQC(subj.node.VS.HighQC())) == vk.MustReject {
+							r.Violate(vbase.Sig("unvalidated-installed", "what", "highqc", "msg", c.kind), fmt.Sprintf("after a mutated %s message (from %q) the replica holds a high QC (view %d) that is not a valid certificate (%d real signers) (state %s, %s, cache %d, aggregate=%v)",
+								c.kind, c.name, subj.node.VS.HighQC().View(), len(signers), state, scheme, cache, agg), rep)
+							subj = nil
+							continue
+						}
+						if v, signers := subj.w.TrueTC(subj.node.VS.HighTC()); v == vk.MustReject && first(probe.w.TrueTC(subj.node.VS.HighTC())) == vk.MustReject {
+							r.Violate(vbase.Sig("unvalidated-installed", "what", "hightc", "msg", c.kind), fmt.Sprintf("after a mutated %s message (from %q) the replica holds a high TC (view %d) that is not a valid certificate (%d real signers) (state %s, %s, cache %d, aggregate=%v)",
+								c.kind, c.name, subj.node.VS.HighTC().View(), len(signers), state, scheme, cache, agg), rep)
+							subj = nil
+							continue
+						}
+						if r.WantSample() && k%211 == 7 {
+							r.Sample(map[string]any{"state": state, "scheme": scheme, "kind": c.kind, "mutated_from": c.name, "wire_bytes": len(raw)})
+						}
+					}
+				}
+			}
+		}
+	}
 }
 
 // ---------------------------------------------------------------- field-state generators
@@ -491,19 +706,33 @@ func verifWire(p vbase.Params, r *vbase.Result) {
 	r.Rule = "structure-aware fault enumeration of the Consensus and Kauri wire messages (Proposal, PartialCert, SyncInfo, TimeoutMsg, BlockHash, Contribution): cross product of field states - every optional sub-message absent / empty / " +
 		"valid; signatures absent / empty oneof / valid / valid-for-another-message / random / truncated / wrong scheme / empty list / nil entry / signer 0, non-member, huge / BLS garbage, empty, infinity; views 0, cur-1, cur, cur+1, 2^64-1; " +
 		"hashes genesis / known / unknown / zero / short / long / empty - each marshalled, unmarshalled and passed to the REAL serviceImpl handler with a peer context (messages in which nothing verifies are delivered three times, the third time from another peer), then the event loop is drained, all under recover; replica states " +
-		"fresh / mid-run / just timed out x schemes x cache on/off x simple and aggregate timeout rule; oracles: no panic; messages in which nothing verifies leave (view, high QC, high TC, committed block, lock, last voted view, number of own signatures) unchanged; " +
+		"fresh / mid-run / just timed out / deep (five views voted, locked and committed) x schemes x cache on/off x simple and aggregate timeout rule; oracles: no panic; messages in which nothing verifies leave (view, high QC, high TC, committed block, lock, last voted view, number of own signatures) unchanged; " +
 		"non-trivial: message with >= 1 non-default field; distinct: (state, scheme, cache, rule, message shape)"
+	type stN struct {
+		state string
+		n     int
+	}
+	var states []stN
+	for _, st := range []string{"fresh", "mid", "timedout", "deep"} {
+		states = append(states, stN{st, 4})
+		if p.Thorough() {
+			states = append(states, stN{st, 7}, stN{st, 10})
+		}
+	}
 	idx := 0
 	for _, scheme := range vk.Schemes {
 		for _, cache := range []uint{0, 100} {
 			for _, agg := range []bool{false, true} {
-				for _, state := range []string{"fresh", "mid", "timedout"} {
+				for _, stateN := range states {
+					state, nn := stateN.state, stateN.n
 					idx++
 					if !p.Mine(idx) {
 						continue
 					}
 					rng := vbase.NewRng(p.Seed, "C10.wire", scheme, cache, agg, state)
-					probe := newSubject(4, scheme, cache, agg, state, rng)
+					probe := newSubject(nn, scheme, cache, agg, state, rng)
+					r.ObsMax("max_committed_view_in_state_"+state, int64(probe.node.VS.CommittedBlock().View()))
+					r.ObsMax("max_view_in_state_"+state, int64(probe.node.VS.View()))
 					cases := probe.enumerate()
 					if scheme == crypto.NameBLS12 && !p.Thorough() {
 						// BLS verification dominates: a PRNG-determined third of the cases in the quick tier
@@ -519,7 +748,7 @@ func verifWire(p vbase.Params, r *vbase.Result) {
 					var subj *subject
 					for k := range cases {
 						if subj == nil {
-							subj = newSubject(4, scheme, cache, agg, state, rng)
+							subj = newSubject(nn, scheme, cache, agg, state, rng)
 							// the enumerated messages refer to the probe's blocks: make them known here too
 							for _, b := range probe.blocks {
 								subj.w.StoreAll(b)
@@ -528,7 +757,7 @@ func verifWire(p vbase.Params, r *vbase.Result) {
 						}
 						c := cases[k]
 						before := subj.node.StateTuple()
-						tag0 := fmt.Sprintf("%s/%s/cache=%d/agg=%v/%s", state, scheme, cache, agg, c.name)
+						tag0 := fmt.Sprintf("%s/n=%d/%s/cache=%d/agg=%v/%s", state, nn, scheme, cache, agg, c.name)
 						stop := watch(p, r, tag0, c.kind)
 						pan, site := subj.call(c.kind, 3, c.msg)
 						if pan == nil && !c.valid {
@@ -541,10 +770,10 @@ func verifWire(p vbase.Params, r *vbase.Result) {
 						}
 						stop()
 						after := subj.node.StateTuple()
-						tag := fmt.Sprintf("%s/%s/cache=%d/agg=%v/%s", state, scheme, cache, agg, c.name)
+						tag := tag0
 						r.Eval(c.name != "proposal-empty", tag)
 						r.Obs("messages_"+c.kind, 1)
-						rep := map[string]any{"state": state, "scheme": scheme, "cache": cache, "aggregate": agg, "message": c.name, "kind": c.kind, "wire": fmt.Sprintf("%x", mustMarshal(c.msg))}
+						rep := map[string]any{"state": state, "n": nn, "scheme": scheme, "cache": cache, "aggregate": agg, "message": c.name, "kind": c.kind, "wire": fmt.Sprintf("%x", mustMarshal(c.msg))}
 						if pan != nil {
 							r.Violate(vbase.Sig("panic", "msg", c.kind, "site", site), fmt.Sprintf("%s message %q makes the replica panic in %s: %v (state %s, %s, cache %d, aggregate=%v)", c.kind, c.name, site, pan, state, scheme, cache, agg), rep)
 							subj = nil
